@@ -34,6 +34,7 @@ type SpecEnv struct {
 func (e *SpecEnv) goal(x ast.Expr) (string, error) {
 	n := *e
 	n.pol = 1
+	e.fc.top.curSkolems = nil
 	return n.evalBool(x)
 }
 
@@ -718,6 +719,7 @@ func (e *SpecEnv) evalCall(n *ast.CallExpr) (Val, error) {
 			var bn string
 			if skolem {
 				bn = e.fc.defs.Declare("sk."+iv.Name, "Int")
+				e.fc.top.curSkolems = append(e.fc.top.curSkolems, modelInput{Name: iv.Name, Term: bn, Ty: types.Typ[types.Int]})
 			} else {
 				bn = e.fc.defs.fresh("q." + iv.Name)
 			}
@@ -776,6 +778,7 @@ func (e *SpecEnv) evalCall(n *ast.CallExpr) (Val, error) {
 				var bn string
 				if skolem {
 					bn = e.fc.defs.Declare("sk."+iv.Name, srt)
+					e.fc.top.curSkolems = append(e.fc.top.curSkolems, modelInput{Name: iv.Name, Term: bn, Ty: ty})
 				} else {
 					bn = e.fc.defs.fresh("q." + iv.Name)
 				}
